@@ -100,7 +100,13 @@ func (_this *Context) SwapBuilder(builder Builder) Builder {
 
 func (_this *Context) ArtificiallyTerminate() {
 	for len(_this.builderStack) > 1 {
+		depth := len(_this.builderStack)
 		_this.CurrentBuilder.BuildArtificiallyEndContainer(_this)
+		if len(_this.builderStack) >= depth {
+			// This builder has nothing to end (pointer, marker, edge, ...).
+			// Drop it, or we would ask it again forever.
+			_this.UnstackBuilder()
+		}
 	}
 }
 
